@@ -40,8 +40,10 @@ Computable(m, c) ==
   /\ (Given(c.ranks) => \A i \in 1..Len(c.ranks.items) : IsFinite(c.ranks.items[i]))
   /\ (Given(c.scores) => \A i \in 1..Len(c.scores.items) : IsFinite(c.scores.items[i]))
   /\ LET tau == EffTau(m, c)
-     IN  \A i \in 1..Len(c.teams.items) : \A j \in 1..Len(c.teams.items[i].items) :
-            ~RNegative(At(c.teams, i, j).sigma) /\ (RPos(At(c.teams, i, j).sigma) \/ ~RIsZero(tau))
+     IN  \A i \in 1..Len(c.teams.items) :
+            /\ \A j \in 1..Len(c.teams.items[i].items) : ~RNegative(At(c.teams, i, j).sigma)
+            \* a team needs some variance: a sigma-0 player is fine beside a team mate with sigma > 0 (share 0), or with tau > 0
+            /\ (~RIsZero(tau) \/ \E j \in 1..Len(c.teams.items[i].items) : RPos(At(c.teams, i, j).sigma))
 
 \* the posterior with budgets, for a well-formed computable call
 RateX(m, c) == RateFn(m.kind, ModelP(m), TeamsVals(c.teams), OutcomeVals(c), EffTau(m, c), EffLimit(m, c))
@@ -54,7 +56,7 @@ RateValue(c, X) ==
 
 \* predictions
 PredictComputable(m, teams) ==
-  /\ RIsReal(m.beta) /\ RPos(m.beta) /\ AllRealLeaves(teams) /\ DistinctObjects(teams)
+  /\ RIsReal(m.beta) /\ RPos(m.beta) /\ AllRealLeaves(teams)     \* the same object in several slots is fine: predictions only read
   /\ \A i \in 1..Len(teams.items) : \A j \in 1..Len(teams.items[i].items) : ~RNegative(At(teams, i, j).sigma)
 
 WinX(m, teams)  == Win(m.beta, TeamsVals(teams))
